@@ -15,9 +15,10 @@ traversals with the per-node `match` arms as written (guard fails ⇒ fall throu
 catch-all that compares discriminants only), `hash` is the sequence of items fed to the hasher,
 `cmp` has an explicit `Panic` where the Rust has `unreachable!`.
 
-`msEqFixed` / `msCmpFixed` are the models of the MINIMAL PATCHES proposed for the two defects
-(F1: `Thresh` has no arm in `eq`, so k and arity are never compared; F2: `cmp` never compares
-the number of children of a display node).  No imports beyond `Model/Ast.lean`.
+The model follows the code AFTER the two fixes `Terminal equality compares thresh k and arity`
+(e7035cf1: the `(Thresh, Thresh)` arm of `eq`) and `Ord for Terminal compares the number of
+children of a node` (150fe1e9: `.then(me_n.cmp(&you_n))` in the `(Node, Node)` arm of `cmp`).
+No imports beyond `Model/Ast.lean`.
 -/
 import MsVerif.Model.Ast
 
@@ -218,6 +219,9 @@ def nodeDiffers (me you : Ms) : Bool :=
   | .sortedMulti k1 ks1, .sortedMulti k2 ks2 => armGuard (k1 != k2 || ks1 != ks2) me you
   | .multiA k1 ks1, .multiA k2 ks2 => armGuard (k1 != k2 || ks1 != ks2) me you
   | .sortedMultiA k1 ks1, .sortedMultiA k2 ks2 => armGuard (k1 != k2 || ks1 != ks2) me you
+  -- `(Thresh(th1), Thresh(th2)) if th1.k() != th2.k() || th1.n() != th2.n()`: the children are
+  -- compared when the loop reaches them
+  | .thresh k1 xs1, .thresh k2 xs2 => armGuard (k1 != k2 || xs1.length != xs2.length) me you
   | _, _ => me.disc != you.disc
 
 /-- `for (me, you) in a.pre_order_iter().zip(b.pre_order_iter()) { … } true`: the zip stops
@@ -228,16 +232,6 @@ def eqZip (differs : Ms → Ms → Bool) : List Ms → List Ms → Bool
 
 /-- `Terminal::eq` = `Miniscript::eq` -/
 def msEq (a b : Ms) : Bool := eqZip nodeDiffers a.preOrder b.preOrder
-
-/-- the patched loop body: one more arm
-`(Thresh(t1), Thresh(t2)) if t1.k() != t2.k() || t1.n() != t2.n() => return false` -/
-def nodeDiffersFixed (me you : Ms) : Bool :=
-  match me, you with
-  | .thresh k1 xs1, .thresh k2 xs2 => armGuard (k1 != k2 || xs1.length != xs2.length) me you
-  | _, _ => nodeDiffers me you
-
-/-- `Terminal::eq` after the proposed patch -/
-def msEqFixed (a b : Ms) : Bool := eqZip nodeDiffersFixed a.preOrder b.preOrder
 
 /-! ## `impl Hash for Terminal` (decode.rs) -/
 
@@ -446,7 +440,11 @@ def fragCmp (a b : Ms) : Ordering := natCmp a.fragName.rank b.fragName.rank
 /-- the `match (me, you)` inside the loop of `cmp` -/
 def dnodeCmp (o : AtomOrd) (me you : DNode) : Except Panic Ordering :=
   match me, you with
-  | .node a, .node b => .ok (fragCmp a b)
+  -- `me.fragment_name().cmp(you.fragment_name()).then(me_n.cmp(&you_n))` with
+  -- `(me_n, you_n) = (me.n_children(), you.n_children())` of the two `DisplayNode`s
+  | .node a, .node b =>
+    .ok ((fragCmp a b).then
+      (natCmp (DNode.asNode (.node a)).children.length (DNode.asNode (.node b)).children.length))
   | .thresholdK a, .thresholdK b => .ok (natCmp a b)
   | .key a, .key b => .ok (o.key a b)
   | .rawKeyHash a, .rawKeyHash b => .ok (o.rawPkh a b)
@@ -472,23 +470,6 @@ def msCmp (o : AtomOrd) (a b : Ms) : Except Panic Ordering :=
   | .lt => .ok .lt
   | .gt => .ok .gt
   | .eq => cmpZip (dnodeCmp o) a.displayPreOrder b.displayPreOrder
-
-/-- the patched `(Node, Node)` arm:
-`me.fragment_name().cmp(you.fragment_name()).then_with(|| me_node.n_children().cmp(&you_node.n_children()))`
-where `me_node`/`you_node` are the two `DisplayNode`s -/
-def dnodeCmpFixed (o : AtomOrd) (me you : DNode) : Except Panic Ordering :=
-  match me, you with
-  | .node a, .node b =>
-    .ok ((fragCmp a b).then
-      (natCmp (DNode.asNode (.node a)).children.length (DNode.asNode (.node b)).children.length))
-  | _, _ => dnodeCmp o me you
-
-/-- `Terminal::cmp` after the proposed patch -/
-def msCmpFixed (o : AtomOrd) (a b : Ms) : Except Panic Ordering :=
-  match fragCmp a b with
-  | .lt => .ok .lt
-  | .gt => .ok .gt
-  | .eq => cmpZip (dnodeCmpFixed o) a.displayPreOrder b.displayPreOrder
 
 /-! ## `impl Clone for Miniscript` (mod.rs) -/
 
